@@ -18,6 +18,7 @@ import (
 	"github.com/nspcc-dev/neo-go/pkg/config/limits"
 	"github.com/nspcc-dev/neo-go/pkg/core/block"
 	"github.com/nspcc-dev/neo-go/pkg/core/dao"
+	"github.com/nspcc-dev/neo-go/pkg/core/fee"
 	"github.com/nspcc-dev/neo-go/pkg/core/interop"
 	"github.com/nspcc-dev/neo-go/pkg/core/interop/contract"
 	"github.com/nspcc-dev/neo-go/pkg/core/mempool"
@@ -3209,6 +3210,11 @@ func (bc *Blockchain) IsTxStillRelevant(t *transaction.Transaction, txpool *memp
 	if err := bc.verifyTxAttributes(bc.dao, t, isPartialTx); err != nil {
 		return false
 	}
+	// Fee per byte, attribute fees or the execution fee factor may have been raised.
+	netFee := t.NetworkFee - int64(t.Size())*bc.FeePerByte() - bc.CalculateAttributesFee(t)
+	if netFee < 0 {
+		return false
+	}
 	for i := range t.Scripts {
 		if !scparser.IsStandardContract(t.Scripts[i].VerificationScript) {
 			recheckWitness = true
@@ -3216,9 +3222,15 @@ func (bc *Blockchain) IsTxStillRelevant(t *transaction.Transaction, txpool *memp
 		}
 	}
 	if recheckWitness {
-		return bc.verifyTxWitnesses(t, nil, isPartialTx) == nil
+		return bc.verifyTxWitnesses(t, nil, isPartialTx, netFee) == nil
 	}
-	return true
+	// Signatures were checked on admission, but their price may have changed.
+	var cost int64
+	for i := range t.Scripts {
+		c, _ := fee.Calculate(bc.GetBaseExecFee(), t.Scripts[i].VerificationScript)
+		cost += c
+	}
+	return cost <= netFee
 }
 
 // VerifyTx verifies whether transaction is bonafide or not relative to the
